@@ -18,8 +18,9 @@ Only statements live here; proofs are in CueVerif/Proofs/{JsonSchema,JsonSchemaS
 -/
 import CueVerif.Proofs.JsonSchema
 import CueVerif.Proofs.JsonSchemaSkel
+import CueVerif.Proofs.JsonSchemaCCFlat
 namespace CueVerif.C13
-open CueVerif CueVerif.JS CueVerif.Skel
+open CueVerif CueVerif.JS CueVerif.Skel CueVerif.CCm
 
 /-! ### (1) the oracle is well-formed -/
 
@@ -204,5 +205,99 @@ example : (⟨.kind .string, fun k => k == .string, KSet.full, false⟩ : Sub).W
   ⟨fun j h => by cases j <;> first | rfl | (simp [accepts, coreOf] at h),
    fun _ j => by cases j <;> rfl,
    fun _ => rfl⟩
+
+
+/-! ### (4) the transcribed per-keyword builders (Model/JsonSchemaCC.lean): target language `CC`,
+`translate`, and exactness of the leaf builders and of `type` w.r.t. the oracle -/
+
+/-- the kind skeleton for the SYNTACTIC constraints the transcribed builders produce: `finalize`
+accepts iff the kind is allowed, the all-constraints hold and the constraints of that kind hold -/
+theorem C13_cc_kind_skeleton (re) (st : TSt) (j : Json) (hOwn : CCm.Own re st)
+    (hknown : st.all.all (acc re · j) = true → hasCore st.known (coreOf j) = true)
+    (hsub : ∀ t, hasCore st.allowed t = true → hasCore st.known t = true) :
+    acc re (CCm.finalize st) j =
+      (hasCore st.allowed (coreOf j) && st.all.all (acc re · j) &&
+        (st.types (coreOf j)).all (acc re · j)) :=
+  CCm.finalize_acc re st j hOwn hknown hsub
+
+/-- EXACTNESS of the leaf builders (minimum, maximum, exclusiveMinimum, exclusiveMaximum, multipleOf,
+minLength, maxLength, pattern, minItems, maxItems), for every instance: the builder is `state.add`
+of a constraint `c` of core type `t`, and the JSON Schema keyword holds iff the instance is of another
+kind or the emitted CUE constraint accepts it -/
+theorem C13_leaf_exact (re rec res kws) (kw : Kw) (t c) (h : leafOf kw = some (t, c)) (tr st) (j : Json) :
+    stepKw tr st kw = addC st t c ∧
+    kwHolds re rec res kws kw j = some (coreOf j != t || acc re c j) :=
+  ⟨CCm.stepKw_leaf tr st kw t c h, CCm.leaf_exact re rec res kws kw t c h j⟩
+
+/-- … and on the state: the builder conjoins exactly the keyword's verdict to what `finalize` accepts -/
+theorem C13_leaf_step (re tr rec res kws) (st : TSt) (kw : Kw) (t c) (h : leafOf kw = some (t, c))
+    (j : Json) (b : Bool) (hb : kwHolds re rec res kws kw j = some b) :
+    stAcc re (stepKw tr st kw) j = (stAcc re st j && b) :=
+  CCm.leaf_step re tr rec res kws st kw t c h j b hb
+
+/-- the leaf builders keep the ownership invariant `finalize` needs -/
+theorem C13_leaf_own (re tr) (st : TSt) (kw : Kw) (t c) (h : leafOf kw = some (t, c))
+    (hO : CCm.Own re st) : CCm.Own re (stepKw tr st kw) := by
+  rw [CCm.stepKw_leaf tr st kw t c h]
+  exact CCm.Own_addC re st t c hO (CCm.leaf_own re kw t c h)
+
+-- non-vacuity: every listed keyword is a leaf; `{"minimum":3}` step on the initial state
+example : leafOf (.minimum ⟨3, 1⟩) = some (.num, .bound .ge ⟨3, 1⟩) := rfl
+example : leafOf (.minItems 2) = some (.array, .listOpen [.top, .top] .top) := rfl
+example : (stAcc tinyRe (stepKw (translate 0) (TSt.init KSet.full) (.minimum ⟨3, 1⟩)) (.num ⟨5, 1⟩),
+           stAcc tinyRe (stepKw (translate 0) (TSt.init KSet.full) (.minimum ⟨3, 1⟩)) (.num ⟨1, 1⟩),
+           stAcc tinyRe (stepKw (translate 0) (TSt.init KSet.full) (.minimum ⟨3, 1⟩)) (.str "a"))
+    = (true, false, true) := by decide
+
+/-- EXACTNESS of `constraintType` under the two guards that exclude the known deviations:
+`typeOk` (not both "integer" and "number": `type-integer-and-number`) and `intForm` (an integral
+instance is written as an int literal: `number-literal-form`) -/
+theorem C13_type_step (re) (ts : List TypeName) (st : TSt) (j : Json)
+    (hcl : CCm.IntClosed st.allowed) (hts : typeOk ts = true) (hj : intForm j = true) :
+    stAcc re (bType ts st) j = (stAcc re st j && ts.any (typeMatches · j)) :=
+  CCm.type_step re ts st j hcl hts hj
+
+/-- FULL statement for `type` (no guards): false on model and code alike -/
+def C13_type_step_stmt : Prop :=
+  ∀ (ts : List TypeName) (j : Json),
+    stAcc tinyRe (bType ts (TSt.init KSet.full)) j =
+      (stAcc tinyRe (TSt.init KSet.full) j && ts.any (typeMatches · j))
+
+/-- witness `number-literal-form`: `{"type":"integer"}` on `1.0` (replayed on the real importer) -/
+theorem C13_type_step_false_literal : ¬ C13_type_step_stmt := by
+  intro h
+  have := h [.integer] (.num ⟨10, 10⟩)
+  revert this
+  decide
+
+/-- witness `type-integer-and-number`: `{"type":["integer","number"]}` on `1.5` -/
+theorem C13_type_step_false_both : ¬ C13_type_step_stmt := by
+  intro h
+  have := h [.integer, .number] (.num ⟨15, 10⟩)
+  revert this
+  decide
+
+-- non-vacuity of the guards
+example : typeOk [.integer, .string] = true ∧ intForm (.num ⟨3, 1⟩) = true ∧
+    CCm.IntClosed (TSt.init KSet.full).allowed := ⟨rfl, rfl, fun _ => rfl⟩
+
+/-- `prefixItems` as emitted (`[a, b, ...]`) REQUIRES the prefix elements to be present, JSON
+Schema does not: `{"prefixItems":[{"type":"string"}]}` accepts `[]` per the specification, the
+translation rejects it (model: here; code: replayed by the harness, class `prefixItems-requires-presence`) -/
+theorem C13_prefixItems_presence_false :
+    let s : Schema := .obj [.prefixItems [.obj [.type [.string]]]]
+    valid tinyRe s 5 s (.arr []) = some true ∧
+    acc tinyRe (translate 5 KSet.full s).expr (.arr []) = false := by
+  decide
+
+/-- THE semantic-preservation statement for the whole transcribed subset: -- OPEN (proved so far:
+the kind skeleton `C13_cc_kind_skeleton`, every leaf builder `C13_leaf_exact/_step`, `type`
+`C13_type_step`, and the combinator encodings `C13_*_exact` / `C13_*_enc` on the semantic model; the
+induction over nested schemas through `translate` is not finished).  The guards a proof needs are
+known: `typeOk`, `intForm` on every number of the instance and of enum/const values, no literal
+`false` under allOf/oneOf, the allOf region of `C13_allOf_enc_partial`, `minItems ≥ len(prefixItems)`. -/
+def C13_translate_exact_stmt (guard : Nat → Schema → Json → Prop) : Prop :=
+  ∀ (n : Nat) (s : Schema) (j : Json), inModel n s = true → guard n s j →
+    valid tinyRe s n s j = some (acc tinyRe (translate n KSet.full s).expr j)
 
 end CueVerif.C13
